@@ -11,6 +11,8 @@ import (
 
 	sdkmath "cosmossdk.io/math"
 	"github.com/cosmos/cosmos-sdk/codec"
+	cdctypes "github.com/cosmos/cosmos-sdk/codec/types"
+	"github.com/cosmos/gogoproto/proto"
 	sdk "github.com/cosmos/cosmos-sdk/types"
 	channeltypes "github.com/cosmos/ibc-go/v8/modules/core/04-channel/types"
 
@@ -58,6 +60,12 @@ type Route struct {
 	To string `json:"to,omitempty"`
 
 	Passthrough []byte `json:"passthrough,omitempty"`
+
+	// Overrides used for the identifier/attribute-type matrix (C05) and for hostile payloads
+	// (C14): the protocol identifier written into the forwarding, and the attribute type packed
+	// into it ("cctp" | "hyp" | "internal" | "fee"), when they differ from Kind.
+	ProtoID  *int32 `json:"proto_id,omitempty"`
+	AttrKind string `json:"attr_kind,omitempty"`
 }
 
 // Transfer is one incoming ICS-20 packet. With RawMemo/RawDenom/RawData unset it is an orbiter
@@ -190,7 +198,13 @@ func BuildMemo(cdc codec.Codec, t Transfer, strict bool) (string, error) {
 	if t.RawMemo != nil {
 		return *t.RawMemo, nil
 	}
-	fw, err := BuildForwarding(t.Route)
+	var fw *core.Forwarding
+	var err error
+	if strict {
+		fw, err = BuildForwarding(t.Route)
+	} else {
+		fw, err = BuildForwardingLoose(t.Route)
+	}
 	if err != nil {
 		return "", fmt.Errorf("forwarding: %w", err)
 	}
@@ -264,4 +278,57 @@ func JSON(v any) string {
 		return fmt.Sprintf("<unmarshalable: %v>", err)
 	}
 	return string(bz)
+}
+
+// BuildForwardingLoose packs the attributes exactly as given, without the validating
+// constructors: this is what a hostile sender can put on the wire.
+func BuildForwardingLoose(r Route) (*core.Forwarding, error) {
+	kind := r.Kind
+	if r.AttrKind != "" {
+		kind = r.AttrKind
+	}
+	var attr proto.Message
+	var id core.ProtocolID
+	switch r.Kind {
+	case "cctp":
+		id = core.PROTOCOL_CCTP
+	case "hyp":
+		id = core.PROTOCOL_HYPERLANE
+	case "internal":
+		id = core.PROTOCOL_INTERNAL
+	}
+	switch kind {
+	case "cctp":
+		attr = &forwardingtypes.CCTPAttributes{DestinationDomain: r.Domain, MintRecipient: r.MintRecipient, DestinationCaller: r.DestCaller}
+	case "hyp":
+		a := &forwardingtypes.HypAttributes{
+			TokenId: r.TokenID, DestinationDomain: r.Domain, Recipient: r.Recipient, CustomHookId: r.HookID,
+			CustomHookMetadata: r.HookMeta, GasLimit: sdkmath.ZeroInt(), MaxFee: sdk.Coin{Denom: r.MaxFeeDenom, Amount: sdkmath.ZeroInt()},
+		}
+		if r.GasLimit != "" {
+			if g, ok := sdkmath.NewIntFromString(r.GasLimit); ok {
+				a.GasLimit = g
+			}
+		}
+		if r.MaxFeeAmount != "" {
+			if g, ok := sdkmath.NewIntFromString(r.MaxFeeAmount); ok {
+				a.MaxFee.Amount = g
+			}
+		}
+		attr = a
+	case "internal":
+		attr = &forwardingtypes.InternalAttributes{Recipient: r.To}
+	case "fee":
+		attr = &actiontypes.FeeAttributes{}
+	default:
+		return nil, fmt.Errorf("unknown attribute kind %q", kind)
+	}
+	if r.ProtoID != nil {
+		id = core.ProtocolID(*r.ProtoID)
+	}
+	anyv, err := cdctypes.NewAnyWithValue(attr)
+	if err != nil {
+		return nil, err
+	}
+	return &core.Forwarding{ProtocolId: id, Attributes: anyv, PassthroughPayload: r.Passthrough}, nil
 }
